@@ -79,7 +79,7 @@ func c06Run(c *core.Ctx) {
 }
 
 func c06Replay(c *core.Ctx, payload json.RawMessage) {
-	if c06ZonesReplay(c, payload) || c06ListsReplay(c, payload) || c06PaddingReplay(c, payload) || c06UnixtimeReplay(c, payload) || c06BoundsReplay(c, payload) {
+	if c06ReevalReplay(c, payload) || c06ZonesReplay(c, payload) || c06ListsReplay(c, payload) || c06PaddingReplay(c, payload) || c06UnixtimeReplay(c, payload) || c06BoundsReplay(c, payload) {
 		return
 	}
 	var p c06Payload
